@@ -788,6 +788,17 @@ fn prune_dead_functions(file: ast::File) -> ast::File {
             stack.push(root.to_string());
         }
     }
+    // what the methods of the emitted types call (the `call` method of a closure's
+    // environment calls the closure's function)
+    for item in &file.toplevels {
+        if let ast::Item::Struct(s) = item {
+            for method in &s.methods {
+                let mut calls = HashSet::new();
+                collect_called_in_block(&method.body, &mut calls, &fn_names);
+                stack.extend(calls);
+            }
+        }
+    }
 
     while let Some(name) = stack.pop() {
         if !reachable.insert(name.clone()) {
